@@ -88,6 +88,16 @@ CLAIMED["C09"] = dict(
     note="Trusted: Lean kernel; model checked by differential; JSON and signature laws as in C03. The civil-date formula is compared with calendar.timegm on a grid (support), not proved against a day-count recursion; the JWE round trip is decided by the differential.",
     technique="Lean 4 proof (soundness + round trip under stated laws) + differential",
     design="7/C09")
+CLAIMED["C04"] = dict(
+    text="Lean 4 over an executable model of JWE ENCRYPTION (perform_encrypt with pre/post recipient passes, ephemeral key preparation, header write-back, every encrypt_cek / agreed-key wrapper, zip, AAD, compact and JSON representation) with randomness as a tape: c04_refuse_direct_multi (a direct-mode algorithm among >= 2 recipients is ConflictAlgorithmError, no token), c04_refuse_1pu_kw_non_cbc (+ decrypt side): ECDH-1PU key wrapping with a non-CBC-HMAC enc is InvalidEncryptionAlgorithmError; c04_enc_roundtrip: for every enc, content decryption of content encryption returns the plaintext (CBC-HMAC key split / AL / tag truncation proved, block and AEAD primitives assumed to invert); c04_content_roundtrip: what perform_encrypt emits is accepted by content decryption under the same CEK, IV and the AAD of the FINAL protected header. Tie: with secrets.token_bytes and ephemeral generation on a tape the Lean model must produce the byte-identical token to joserfc for every alg x enc x zip x serialization (JSON incl. header placement and pre-attached keys); joserfc's outputs decrypt in joserfc and in the Lean decryption model to the original plaintext and header; 1..4 mixed recipients; refusals.",
+    note="Trusted: Lean kernel; AeadLaws; model checked by differential (byte-identical tokens under a shared randomness tape). The whole-pipeline round trip (key management included) is decided by the differential plus the C02 soundness theorem, not by a single Lean theorem yet.",
+    technique="Lean 4 proof (refusals, content round trip under stated laws) + tape-synchronised differential",
+    design="7/C04")
+CLAIMED["C18"] = dict(
+    text="Lean 4 over the encryption model with randomness as a tape: c18_iv_fresh (the IV of every encryption is the tape value at the position after all earlier draws, of exactly iv_size/8 octets, placed verbatim, and is the last draw), c18_distinct_ivs (two encryptions reading one global tape at disjoint index ranges have different IVs whenever distinct tape positions hold distinct values - the CSPRNG hypothesis, explicit and used nowhere else), c18_epk (one generation request per key-agreement recipient, for that recipient's own key/curve, at the next generation index), c18_gcmkw_iv, kernel-decided sizes (IV/CEK per enc, GCM-KW IV 96 bit, salt 16 >= 8, p2c default 2048 >= 1000). Tie: tape runs for every alg x enc x serialization (draw list = Spec.D, IV / CEK / GCM-KW iv / p2s / epk verbatim), model draw lists equal implementation's (C04 differential), unpatched statistics (duplicates, sizes, constant bits over 200 / 10^4 encryptions), key generation (distinctness, size/curve, documented rejections).",
+    note="Trusted: Lean kernel; extract.py; quality of the OS CSPRNG and of pyca key generation cannot be exhibited by a theorem (partial in that respect; sampled statistically). Distinctness of CEK / GCM-KW IV / p2s draws is covered by the tape runs and the same argument as c18_distinct_ivs, stated as theorem for the IV.",
+    technique="Lean 4 proof (draw discipline over a randomness tape) + tape runs + statistics",
+    design="7/C18")
 PENDING = {}
 
 
